@@ -51,6 +51,24 @@ def run(ctx):
         series = [[rng.randint(-4, 4) for _ in range(l * nd)] for l in lens]
         t = rng.randint(1, 6)
         c0 = [rng.randint(-4, 4) for _ in range(t * nd)] if rng.random() < 0.6 else list(series[0])
+        if k % 3 == 2:
+            # zero-distance family: the average and some series are differently warped copies (plateaus) of one base
+            # sequence, of the SAME length: DTW distance exactly 0 although they differ element-wise
+            base = [[rng.randint(-4, 4) for _ in range(nd)] for _ in range(rng.randint(2, 4))]
+
+            def warp(total):
+                reps = [1] * len(base)
+                for _ in range(total - len(base)):
+                    reps[rng.randrange(len(base))] += 1
+                return [v for pt, r_ in zip(base, reps) for _ in range(r_) for v in pt]
+            total = len(base) + rng.randint(1, 3)
+            c0 = warp(total)
+            for si in range(nser):
+                if rng.random() < 0.6:
+                    series[si] = warp(total)
+            lens = [len(x) // nd for x in series]
+            equal = len(set(lens)) == 1
+            res.hit("zero_distance_warped_copies")
         t = len(c0) // nd
         mask = [rng.random() < 0.7 for _ in range(nser)]
         if big:
